@@ -5,6 +5,7 @@ import (
 	"math/rand"
 	"os"
 	"path/filepath"
+	"strings"
 	"sync"
 	"time"
 )
@@ -80,11 +81,22 @@ func getFilePath(path string, suffix string) string {
 	return filepath.Join(dir, "."+basename+suffix)
 }
 
+// RLockExists reports whether a read lock file of the file exists. The names are compared literally: a file
+// name, or a directory name, may contain characters that mean something in a glob pattern.
 func RLockExists(path string) bool {
-	dir := filepath.Dir(path)
-	basename := filepath.Base(path)
-	match, _ := filepath.Glob(filepath.Join(dir, "."+basename) + ".*" + RLockFileSuffix)
-	return match != nil
+	entries, err := os.ReadDir(filepath.Dir(path))
+	if err != nil {
+		return false
+	}
+
+	prefix := "." + filepath.Base(path) + "."
+	for _, entry := range entries {
+		name := entry.Name()
+		if len(prefix)+len(RLockFileSuffix) <= len(name) && strings.HasPrefix(name, prefix) && strings.HasSuffix(name, RLockFileSuffix) {
+			return true
+		}
+	}
+	return false
 }
 
 func LockExists(path string) bool {
